@@ -24,6 +24,10 @@ Clauses == <<
   <<"LiveOrRaise", HasEnter /\ E.r = "returned" => E.url>>,
   <<"WithinTimeout", HasEnter => E.t <= Timeout>>,
   <<"EntersWhenAnnounced", HasEnter /\ Announced => E.r = "returned">>,
+  \* a request written on the write stream of a live connection is POSTed to the announced
+  \* endpoint (SendRequest puts a POST in flight): otherwise no answer can ever come "in the
+  \* POST reply" and the connection is dead for sending although it was handed out as live
+  <<"RequestPosted", End.unposted = 0>>,
   <<"OneTerminal", /\ Cardinality(OwnIdx) <= 1
                    /\ (End.expReq = "done" => Cardinality(OwnIdx) = 1)>>,
   <<"IdPreserved", \A i \in OwnIdx : Read[i][1] = "own">>,
